@@ -43,6 +43,13 @@ def cells(tier):
                 for outcome in OUTCOMES:
                     for first in FIRST:
                         out.append(dict(kind=kind, p=p, seq=list(seq), outcome=outcome, first=first))
+    # results stored after every iteration, the result store working or down for the whole run: the successor
+    # does not depend on it
+    for kind in ("mem", "redis", "amqp"):
+        for seq in itertools.product(range(len(DURS)), repeat=2):
+            for outcome in OUTCOMES:
+                for store in ("up", "down"):
+                    out.append(dict(kind=kind, p=2.5, seq=list(seq), outcome=outcome, first="none", store=store))
     # the process east / west of UTC: every pair of durations
     for kind in ("mem", "redis", "amqp"):
         for tz in (9, -5):
@@ -106,14 +113,18 @@ def _execute(cell):
             du = now - timedelta(seconds=5)
         job = Job("tick", queue="q", id_="rec", deferred_by=timedelta(seconds=p), deferred_until=du,
                   retries=retries, timeout=timedelta(seconds=1000), ttl=timedelta(seconds=500),
-                  _connection=x.world.conn)
+                  store_result=bool(cell.get("store")), _connection=x.world.conn)
         key, _, params = await job.enqueue()
         info["t0"] = now
         info["du"] = du
         info["first_next"] = params.compute_next_execution_time
 
     horizon = 1.3 * p + sum((2 if cell["outcome"] == "fail1" else 1) * max(d, p) + p + RETRY_DELAY for d in seq) + 2 * p + 2
-    res = run_worker(cell["kind"], build=build, messages=[], pre=pre, stop_at=horizon,
+    def configure(x):
+        x.world.bucket_down = cell.get("store") == "down"
+
+    res = run_worker(cell["kind"], build=build, messages=[], pre=pre, stop_at=horizon, configure=configure,
+                     buckets="results" if cell.get("store") else None,
                      worker_kw=dict(graceful_shutdown_time=0.1), max_iters=3_000_000, settle=0.5)
     viol = []
     if res.status != "ok":
